@@ -44,6 +44,7 @@ type input struct {
 	Script          [][]int     `json:"script,omitempty"`      // per distinct body in arrival order: outcome per attempt (then 2xx)
 	Nop             []int       `json:"nop,omitempty"`         // the same for the start-up nop
 	D8              bool        `json:"d8,omitempty"`
+	Shutdown        bool        `json:"shutdown,omitempty"` // cancel Run right after the last flush (suspected defect, see notes/C15.md)
 }
 
 // ---------------------------------------------------------------------------------------------
@@ -250,7 +251,9 @@ func genFwd(r *hlib.Rand, d8 bool) input {
 		if in.Batches[b].Items[i].T == int(gostatsd.GAUGE) {
 			in.Batches[b].Items[i].T = int(gostatsd.COUNTER)
 		}
-		in.ClientTimeoutMs = 0
+		// no faults here: the stream is about isolation, and everything that will ever arrive must
+		// have arrived well before the harness stops waiting for the datapoints D8 loses
+		in.Script, in.Nop, in.WindowMs, in.ClientTimeoutMs = nil, nil, -1, 0
 	}
 	return in
 }
@@ -300,6 +303,12 @@ func main() {
 		r := hlib.NewRand(a.Seed)
 		for i := 0; i < a.N; i++ {
 			rr := r.Fork()
+			if a.Extra["stream"] == "shutdown" { // not part of the registered check
+				in := genFwd(rr, false)
+				in.Script, in.Nop, in.ClientTimeoutMs, in.WindowMs, in.Shutdown = nil, nil, 0, -1, true
+				ins = append(ins, in)
+				continue
+			}
 			switch {
 			case i%20 == 7:
 				ins = append(ins, genFwd(rr, true))
